@@ -28,7 +28,7 @@ func init() {
 		ID:    "C04",
 		Title: "Joins return the textbook multiset for every join type and strategy",
 		Level: "exploration",
-		Rule: "66..125 distinct keys in a share of the cases; natively typed key columns; key columns whose names are not plain words; BETWEEN over columns and NOT in ON; the same ON text once more with the operands swapped. alias names include pairs in which one is a prefix of the other. key columns are of one kind or of mixed kinds (numbers on one side, their decimal texts of different lengths on the other; reference: a number against a string is ordered by the number's decimal text). each case = two random tables (0..10 rows quick / 0..30 thorough; key columns named a,z,k vs m,b,j so that the two sides sort differently; duplicate keys; number and string keys incl. '-' and digits) x an ON tree (depth <= 3) of = != < <= > >= " +
+		Rule: "whole-number keys from 2^63 on. 66..125 distinct keys in a share of the cases; natively typed key columns; key columns whose names are not plain words; BETWEEN over columns and NOT in ON; the same ON text once more with the operands swapped. alias names include pairs in which one is a prefix of the other. key columns are of one kind or of mixed kinds (numbers on one side, their decimal texts of different lengths on the other; reference: a number against a string is ordered by the number's decimal text). each case = two random tables (0..10 rows quick / 0..30 thorough; key columns named a,z,k vs m,b,j so that the two sides sort differently; duplicate keys; number and string keys incl. '-' and digits) x an ON tree (depth <= 3) of = != < <= > >= " +
 			"comparisons between columns of the two aliases joined by AND/OR, in random orientation x a join type; the query `SELECT * FROM l x <J> r y ON ...` is executed under EVERY strategy spelling of that type " +
 			"(inner: JOIN, INNER JOIN, HASH_JOIN, STRAIGHT_JOIN and their PARALLEL forms; left/right: JOIN, HASH_JOIN and PARALLEL forms) and each result is compared as a multiset with a nested-loop reference; " +
 			"additionally ON is re-spelled (conjuncts permuted, each comparison flipped) and must give the same multiset. Phase 'par' repeats PARALLEL variants in a -race child with hook-injected yields inside the join goroutines and also records the distinct output orders seen (an observable of the schedule). " +
